@@ -354,6 +354,11 @@ def joinWith (sep : String) : List String → String
 def dedupStr (l : List String) : List String :=
   l.foldl (fun acc x => if acc.contains x then acc else acc ++ [x]) []
 
+/-- a client without DO gets the reply with its DNSSEC records stripped: the
+NSEC RRset of a synthesis (pieces `s<i>`) consists of nothing else. -/
+def stripForDO (doBit : Bool) (r : Reply) : Reply :=
+  if doBit then r else { r with ns := r.ns.filter fun n => !(n.owner.startsWith "s" && n.owner != "sz") }
+
 def replyTokens (r : Reply) : String :=
   let ansToks := r.ans.map fun p =>
     if r.fresh.contains p then p ++ ":*"
@@ -398,9 +403,10 @@ def stepHist (st : State) (w : List String) : State × String :=
     match d.toInt? with
     | some d => ({ st with h := { h with V := h.V + d } }, "ok")
     | none => (st, "bad-op")
-  | ["c", "q", _route, name, ecs, _do, up] =>
+  | ["c", "q", _route, name, ecs, doS, up] =>
     match parseBool ecs, parseUp up with
     | some ecs, some script =>
+      let doBit := doS == "t"
       let h := { h with j := h.j + 1 }
       let now := nowOf h
       if name.startsWith "u" then
@@ -419,7 +425,7 @@ def stepHist (st : State) (w : List String) : State × String :=
           | some r =>
             if r.fresh.contains name then "fwd"
             else
-              let t := replyTokens r
+              let t := replyTokens (stripForDO doBit r)
               if t == "" then "hit" else "hit " ++ t
         ({ st with h := h' }, head ++ listing h' id0 now)
     | _, _ => (st, "bad-op")
